@@ -29,6 +29,10 @@ SeedA ==
      [C("SetShape") EXCEPT !.v = 1, !.vs = <<2, 3>>],
      [C("SetType") EXCEPT !.v = 5, !.name = "FLOAT"],
      [C("SetShape") EXCEPT !.v = 5, !.vs = <<2, 3>>],
+     \* known SCALAR shapes (rank 0, not "unknown"): on the initializer and on a node output that is a graph output
+     [C("SetShape") EXCEPT !.v = 2, !.vs = <<>>],
+     [C("SetType") EXCEPT !.v = 6, !.name = "FLOAT"],
+     [C("SetShape") EXCEPT !.v = 6, !.vs = <<>>],
      [C("MetaPut") EXCEPT !.v = 1, !.name = "k1"],
      [C("ValMetaPut") EXCEPT !.v = 5, !.name = "k1"],
      [C("NodeMetaPut") EXCEPT !.n = 1, !.name = "k1"],
